@@ -112,6 +112,28 @@ func C09(r *ev.Report) {
 		}
 	})
 
+	// complete length product: every (message length, DST length) pair up to the bound
+	maxLen := 400
+	if ev.Thorough() {
+		maxLen = 1100
+	}
+
+	big := fill(maxLen, 2)
+	r.Bound("length_product", fmt.Sprintf("msg 0..%d x DST 1..%d", maxLen, maxLen))
+
+	r.ParFor(maxLen+1, func(_, ml int) {
+		for dl := 1; dl <= maxLen; dl++ {
+			if key, detail := c09Case(big[:ml], big[maxLen-dl:]); key != "" {
+				r.Violation(key, detail, Case{"op": "hash", "msg": hb(big[:ml]), "dst": hb(big[maxLen-dl:]), "nilmsg": "false"})
+			}
+		}
+
+		r.Transitions.Add(int64(maxLen))
+		r.Evals.Add(int64(maxLen))
+		r.States.Add(int64(maxLen))
+		r.Distinct.Add(int64(maxLen))
+	})
+
 	for _, m := range shortMsgs(false)[:20] {
 		for _, d := range [][]byte{nil, {}} {
 			r.Transitions.Add(1)
